@@ -150,6 +150,19 @@ def handle (st : DState) (op : String) (args impl : List String) : Option (DStat
       | .count _ => .ok "axisv.count"
       | .none => .malformed "axisv without axis"
     | _ => .malformed "axisv")
+  -- … and each of them converts back to its index (C07: "the coordinate of sample i converts back to i"), judged on the
+  -- implementation's answer alone
+  | "axisrt" => some <| (st,
+    match args.map parseNat with
+    | [some count, some start] =>
+      let expect := ["ok", fmtList ((List.range count).map fun i => toString (i + start))]
+      match st.axis with
+      | .sampled .. => judge "axisrt.sampled" expect impl [("axis_coordinate_converts_back", impl == expect)]
+      | .range ticks _ =>
+        if start + count ≤ ticks.length then judge "axisrt.range" expect impl [("axis_coordinate_converts_back", impl == expect)]
+        else .ok "axisrt.range.past_the_end"
+      | _ => .malformed "axisrt without axis"
+    | _ => .malformed "axisrt")
   | _ => none
 
 end Nix.Drive.Index
